@@ -87,6 +87,9 @@ pub struct Hist {
     pub next_payload: u32,
     /// C18 runs: what is observed in a step that called an unsafe fast path refutes C18
     pub retag_unchecked: bool,
+    /// (from property, operation, to property): a finding of `from` raised during `operation` is ALSO a
+    /// finding of `to` (e.g. in a C01 run what `drain()` hands back is a return value C01 speaks about)
+    pub dual: Vec<(&'static str, &'static str, &'static str)>,
     /// self-counting element families: live objects when the history started
     pub live_base: i64,
     /// a user panic was injected in this history: leaks are tolerated from then on (C04), double drops are not
@@ -103,6 +106,7 @@ impl Hist {
             next_tag: 1,
             next_payload: 100,
             retag_unchecked: false,
+            dual: Vec::new(),
             live_base: 0,
             fault_leak: false,
         }
@@ -124,6 +128,11 @@ impl Hist {
     pub fn viol(&mut self, prop: &str, what: &str, msg: String) {
         let (_, _, op) = ledger::ctx();
         let prop = if self.retag_unchecked && op == "insert_unchecked" && prop != "MEM" { "C18" } else { prop };
+        for (from, o, to) in &self.dual {
+            if *from == prop && *o == op {
+                ledger::violation(to, format!("{}:{}@{}", from, what, op), msg.clone());
+            }
+        }
         ledger::violation(prop, format!("{}@{}", what, op), msg);
         self.failed = true;
     }
@@ -164,6 +173,25 @@ pub const STYLES: [&str; 19] = ["next", "nth", "skip", "step_by(2)", "last", "fo
 /// Consume `it` in the given style.  Returns the items it yielded, the positions (in the
 /// iterator's own `next()` order) those items must be, and the value of `count()` if that was
 /// the style.  `j` is the style's parameter (how many to skip / which to take).
+/// `drive` on an iterator that has already been stepped `pre` times with `next()` (possibly beyond its
+/// end): adaptor and consumer methods must behave on a partially consumed or exhausted iterator exactly
+/// as on a fresh one over the remaining items.  Items and positions of the pre-consumed head come first.
+pub fn drive_pre<I: Iterator>(mut it: I, pre: usize, style: usize, j: usize, len0: usize) -> (Vec<I::Item>, Vec<usize>, Option<usize>) {
+    let mut head: Vec<I::Item> = Vec::new();
+    for _ in 0..pre {
+        if let Some(x) = it.next() {
+            head.push(x);
+        }
+    }
+    let p = pre.min(len0);
+    let yielded_head = head.len();
+    let (items, pos, c) = drive(it, style, j, len0 - p);
+    head.extend(items);
+    let mut positions: Vec<usize> = (0..p).collect();
+    positions.extend(pos.into_iter().map(|x| x + p));
+    (head, positions, c.map(|c| c + yielded_head))
+}
+
 pub fn drive<I: Iterator>(mut it: I, style: usize, j: usize, len0: usize) -> (Vec<I::Item>, Vec<usize>, Option<usize>) {
     let all: Vec<usize> = (0..len0).collect();
     match style {
